@@ -227,7 +227,7 @@ pub fn run(tier: Tier) -> i32 {
     //   bound 1: every single departure among the frames of an acquisition window and of a
     //            steady-state window (quick: every 4th point, acquisition window only);
     //   bound 2: every pair, grid points in a scattered order, until the budget is used up.
-    let budget_s: f64 = std::env::var("VERIF_C02_BUDGET_S").ok().and_then(|s| s.parse().ok()).unwrap_or(tier.pick(40.0, 2400.0));
+    let budget_s: f64 = std::env::var("VERIF_C02_BUDGET_S").ok().and_then(|s| s.parse().ok()).unwrap_or(tier.pick(40.0, 1200.0));
     let started = std::time::Instant::now();
     let windows_of = |g: &Grid| -> Vec<(u64, u64)> { if tier == Tier::Thorough { vec![(6, 12), (t_acq(g) / SEC + 15, t_acq(g) / SEC + 19)] } else { vec![(6, 12)] } };
     type R = (u64, Vec<Violation>, Option<u64>, i128, usize);
